@@ -370,7 +370,7 @@ struct EncGen {
       int lim = (int)g.below(4);   // 0 max only, 1 min only, 2 both, 3 CBR
       double tight = g.chance(0.4) ? 0.3 + g.unit() * 0.5 : 0.8 + g.unit() * 0.6;   // max below nominal forces truncation
       long mx = (long)(nom * (lim == 3 ? 1.0 : tight)), mn = (long)(nom * (lim == 3 ? 1.0 : 0.3 + g.unit() * 0.7));
-      if (lim == 2 && mn > mx) std::swap(mn, mx);
+      if (lim == 2 && mn > mx && !g.chance(0.15)) std::swap(mn, mx);   // (sometimes left as drawn: a hard minimum above the hard maximum has to be refused by the set-up or the control interface - whatever is accepted must hold)
       e.set("max", lim == 1 ? -1 : mx).set("min", lim == 0 ? -1 : mn);
       if (lim != 3 && g.chance(0.3)) e.set("nom", -1);
       double u = g.unit(); e.set("resv", u < 0.2 ? (int64_t)g.range(0, 4000) : u < 0.6 ? (int64_t)g.range(4000, 60000) : (int64_t)g.range(60000, 2 * nom)).setf("bias", g.chance(0.2) ? (g.chance(0.5) ? 0.0 : 1.0) : g.unit());
